@@ -226,9 +226,17 @@ def r2(ctx, R):
         R.bad(ri, ri.node, "the reference does not record its mode", stmt="self.refmode =")
     for f in ctx.repo.all_funcs(modules=["modelx.core"]):
         for st, t in q.attr_writes(f, attr="refmode"):
-            if f.short != "ReferenceImpl.__init__":
-                R.inst("write of refmode in %s" % f.short)
-                R.bad(f, st, "reference mode changed after creation")
+            if f.short == "ReferenceImpl.__init__":
+                continue
+            R.inst("write of refmode in %s" % f.short)
+            if not (f.short == "ReferenceImpl.on_inherit" and norm(st.value) == "bases[0].refmode"):
+                R.bad(f, st, "reference mode changed after creation by something other than re-derivation from the first definer")
+    oi = ctx.func("ReferenceImpl.on_inherit")
+    R.inst("ReferenceImpl.on_inherit takes the mode of the first definer before dispatching on it")
+    ws = [st for st, t in q.attr_writes(oi, attr="refmode", recv="self") if norm(st.value) == "bases[0].refmode"]
+    tests = [n_.ast for n_ in oi.cfg.nodes if n_.kind == "test" and "self.refmode" in norm(n_.ast)]
+    if not ws or any(not q.dominated(oi, ws, t_) for t_ in tests):
+        R.bad(oi, oi.node, "a re-derived reference keeps the mode of a base it no longer derives from", stmt="self.refmode = bases[0].refmode")
     ui = ctx.func("UserSpaceImpl.on_inherit")
     R.inst("derived reference takes the first definer's mode")
     cs = [c for c in q.calls(ui, name="ReferenceImpl")]
@@ -295,6 +303,27 @@ def r3(ctx, R):
         resets = [st for st in (lp.body if lp else []) if isinstance(st, ast.Assign) and norm(st) == "is_relative = False"]
         if lp is not None and not resets:
             R.bad(fi, lp, "is_relative leaks from one sub space to the next")
+    oc_ = ctx.func("UserSpaceImpl.on_change_ref")
+    R.inst("on_change_ref returns the *new* reference and gives it the is_relative value before the dynamic subs are updated")
+    nv = [n_ for n_ in walk_local(oc_.node) if isinstance(n_, ast.Assign) and isinstance(n_.value, ast.Call)
+          and call_name(n_.value) == "on_create_ref" and isinstance(n_.targets[0], ast.Name)]
+    rr = q.returns(oc_)
+    if not nv or len(rr) != 1 or norm(rr[0].value) != nv[0].targets[0].id:
+        R.bad(oc_, oc_.node, "the caller records is_relative on the reference that was just replaced, the new one keeps the "
+                             "constructor default", stmt="return <new reference>")
+    else:
+        var = nv[0].targets[0].id
+        ws = [st for st, t in q.attr_writes(oc_, attr="is_relative", recv=var)]
+        cd = q.calls(oc_, name="change_dynsub_refs")
+        if not ws or norm(ws[0].value) != "is_relative" or (cd and not q.dominated(oc_, ws, cd[0])):
+            R.bad(oc_, oc_.node, "dynamic subs are re-bound before the new reference knows whether it is relative",
+                  stmt="newref.is_relative = is_relative")
+    cr_ = ctx.func("UserSpaceImpl.on_create_ref")
+    R.inst("on_create_ref returns the reference it created")
+    rr = q.returns(cr_)
+    mk = [n_ for n_ in walk_local(cr_.node) if isinstance(n_, ast.Assign) and isinstance(n_.value, ast.Call) and call_name(n_.value) == "ReferenceImpl"]
+    if not mk or len(rr) != 1 or norm(rr[0].value) != norm(mk[0].targets[0]):
+        R.bad(cr_, cr_.node, "on_create_ref does not return the created reference", stmt="return ref")
     n = 0
     for f in ctx.repo.all_funcs(modules=["modelx.core.space", "modelx.core.model"]):
         for x in walk_local(f.node):
